@@ -1,1377 +1,24 @@
-//! Executors for the core operation alphabet (construction, iterator, functional,
-//! sequence, internals, caller side). Heap and serde operations live in exec_heap.rs /
-//! exec_serde.rs.
+//! Dispatcher: routes an operation to its executor group. The executors live in the g_*.rs
+//! modules, each behind its own wrapper type, so that the compiler places every group in its own
+//! codegen unit (methods of one generic type would all land in the unit of that type's module).
 
-use crate::alloc::{enter, Ctx};
 use crate::elem::Elem;
-use crate::gen::*;
-use crate::ledger::{self, Seam};
+use crate::g_bx::GBx;
+use crate::g_collect::GCollect;
+use crate::g_conv::GConv;
+use crate::g_iter1::GIter1;
+use crate::g_iter2::GIter2;
+use crate::g_map::GMap;
+use crate::g_misc::GMisc;
+use crate::g_new::GNew;
+use crate::g_seq::GSeq;
+use crate::g_serde::GSerde;
+use crate::g_zip::GZip;
 use crate::ops::*;
 use crate::world::*;
-use generic_array::functional::FunctionalSequence;
-use generic_array::internals::{ArrayBuilder, ArrayConsumer, IntrusiveArrayBuilder};
-use generic_array::sequence::*;
-use generic_array::typenum::Unsigned;
-use generic_array::GenericArray;
-use std::collections::VecDeque;
 
-fn infra<R>(f: impl FnOnce() -> R) -> R {
-    let _g = enter(Ctx::Infra);
-    f()
-}
-
-fn is_prefix(got: &[u32], want: &[u32]) -> bool {
+pub fn is_prefix(got: &[u32], want: &[u32]) -> bool {
     got.len() <= want.len() && got == &want[..got.len()]
-}
-
-impl<E: Elem> World<E> {
-    /// Apply one operation. Never panics on its own; library panics are caught inside.
-    pub fn apply(&mut self, cx: &mut Cx, op: &Op) {
-        cx.op_panicked = false;
-        let a = op.args;
-        match op.kind {
-            OpKind::Generate => self.op_generate(cx, a),
-            OpKind::DefaultArr => self.op_default(cx, a),
-            OpKind::CloneArr => self.op_clone(cx, a),
-            OpKind::Collect => self.op_collect(cx, a),
-            OpKind::NativeRoundtrip => self.op_native(cx, a),
-            OpKind::TupleRoundtrip => self.op_tuple(cx, a),
-            OpKind::IntoIter => self.op_into_iter(cx, a),
-            OpKind::ItNext | OpKind::ItNextBack => self.op_it_next(cx, a, op.kind == OpKind::ItNextBack),
-            OpKind::ItNth | OpKind::ItNthBack => self.op_it_nth(cx, a, op.kind == OpKind::ItNthBack),
-            OpKind::ItLen => self.op_it_len(cx, a),
-            OpKind::ItWrite => self.op_it_write(cx, a),
-            OpKind::ItClone => self.op_it_clone(cx, a),
-            OpKind::ItFold | OpKind::ItRfold => self.op_it_fold(cx, a, op.kind == OpKind::ItRfold),
-            OpKind::ItCount => self.op_it_count(cx, a),
-            OpKind::ItLast => self.op_it_last(cx, a),
-            OpKind::ItDebug => self.op_it_debug(cx, a),
-            OpKind::ItCollect => self.op_it_collect(cx, a),
-            OpKind::ItCloneFrom => self.op_it_clone_from(cx, a),
-            OpKind::CloneFromArr => self.op_clone_from(cx, a),
-            OpKind::Map => self.op_map(cx, a),
-            OpKind::Zip => self.op_zip(cx, a),
-            OpKind::Fold => self.op_fold(cx, a),
-            OpKind::Append => self.op_append(cx, a),
-            OpKind::Pop => self.op_pop(cx, a),
-            OpKind::Split => self.op_split(cx, a),
-            OpKind::Concat => self.op_concat(cx, a),
-            OpKind::Remove => self.op_remove(cx, a),
-            OpKind::Flatten => self.op_flatten(cx, a),
-            OpKind::Unflatten => self.op_unflatten(cx, a),
-            OpKind::NestGen => self.op_nest_gen(cx, a),
-            OpKind::NestClone => self.op_nest_clone(cx, a),
-            OpKind::NestIntoIter => self.op_nest_into_iter(cx, a),
-            OpKind::BuilderRun => self.op_builder(cx, a),
-            OpKind::ConsumerRun => self.op_consumer(cx, a),
-            OpKind::DropObj => self.op_drop(cx, a),
-            OpKind::ReleaseLoose => self.op_release(cx, a),
-            OpKind::ArrToVec
-            | OpKind::ArrBox
-            | OpKind::Unbox
-            | OpKind::VecMake
-            | OpKind::VecToArr
-            | OpKind::VecToBx
-            | OpKind::BxToVec
-            | OpKind::BoxedGenerate
-            | OpKind::DefaultBoxed
-            | OpKind::BxClone
-            | OpKind::BxIntoIter
-            | OpKind::VitNext
-            | OpKind::BoxArrMacro => self.apply_heap(cx, op),
-            OpKind::SerRecord | OpKind::SerReal | OpKind::DeScripted | OpKind::DeReal => {
-                self.apply_serde(cx, op)
-            }
-        }
-    }
-
-    fn noop(&mut self, cx: &mut Cx) {
-        cx.ops_noop += 1;
-    }
-
-    // ---- construction ----------------------------------------------------
-
-    fn op_generate(&mut self, cx: &mut Cx, a: [u32; N_ARGS]) {
-        let li = lens_idx(a[0]);
-        let form = a[1] % 3;
-        let n = LENS[li];
-        let mut cb = Cb::<E>::new(0);
-        let mut idxs: Vec<usize> = infra(Vec::new);
-        let r = with_len!(li; N => {
-            let f = |i: usize| {
-                let _g = enter(Ctx::Work);
-                ledger::tick(Seam::Closure);
-                infra(|| idxs.push(i));
-                cb.calls += 1;
-                let e = E::make();
-                cb.out(e)
-            };
-            lib(|| match form {
-                0 => Arr::from(<GenericArray<E, N> as GenericSequence<E>>::generate(f)),
-                1 => Arr::from(<&GenericArray<E, N> as GenericSequence<E>>::generate(f)),
-                _ => Arr::from(<&mut GenericArray<E, N> as GenericSequence<E>>::generate(f)),
-            })
-        });
-        let want: Vec<usize> = infra(|| (0..n).collect());
-        match r {
-            Ok(arr) => {
-                if cx.checks.c08 {
-                    if idxs != want {
-                        fail("C08-generate-calls", format!("generate::<{n}> called its function with {idxs:?}, expected 0..{n} in ascending order"));
-                    }
-                    let got = with_arr!(&arr; x, N => { let _ = N::USIZE; ids_of(x.as_slice(), 930) });
-                    if E::HAS_ID && got != cb.outs {
-                        fail("C08-generate-result", format!("generate::<{n}>: result holds {got:?} but call i returned {:?}", cb.outs));
-                    }
-                }
-                cx.cov(&[OpKind::Generate as u64, n as u64, form as u64, 0]);
-                self.put_arr(cx, arr);
-            }
-            Err(p) => {
-                if cx.checks.c08 && !(idxs.len() <= n && idxs[..] == want[..idxs.len()]) {
-                    fail("C08-generate-calls", format!("generate::<{n}> called its function with {idxs:?} before the panic, expected a prefix of 0..{n}"));
-                }
-                cx.cov(&[OpKind::Generate as u64, n as u64, form as u64, 1, idxs.len() as u64]);
-                on_panic(cx, "generate", p);
-            }
-        }
-    }
-
-    fn op_default(&mut self, cx: &mut Cx, a: [u32; N_ARGS]) {
-        let li = lens_idx(a[0]);
-        let n = LENS[li];
-        ledger::with(|s| s.clones.clear());
-        let r = with_len!(li; N => lib(|| Arr::from(GenericArray::<E, N>::default())));
-        let calls = ledger::seam_count(Seam::Default) as usize;
-        match r {
-            Ok(arr) => {
-                if cx.checks.c08 && calls != n {
-                    fail("C08-default-calls", format!("Default for length {n} called the element's default {calls} times"));
-                }
-                if cx.checks.c08 && E::HAS_ID {
-                    // element i is the result of the i-th call
-                    let made: Vec<u32> = ledger::with(|s| s.clones.iter().filter(|c| c.0 == u32::MAX).map(|c| c.1).collect());
-                    let got = with_arr!(&arr; x, N => { let _ = N::USIZE; ids_of(x.as_slice(), 930) });
-                    if got != made {
-                        fail("C08-default-order", format!("Default for length {n}: calls produced {made:?} in that order, the array holds {got:?}"));
-                    }
-                }
-                cx.cov(&[OpKind::DefaultArr as u64, n as u64, 0]);
-                self.put_arr(cx, arr);
-            }
-            Err(p) => {
-                cx.cov(&[OpKind::DefaultArr as u64, n as u64, 1, calls as u64]);
-                on_panic(cx, "default", p)
-            }
-        }
-    }
-
-    fn op_clone(&mut self, cx: &mut Cx, a: [u32; N_ARGS]) {
-        let Some(i) = pick_len(self.arrs.len(), a[0]) else { return self.noop(cx) };
-        let src = &self.arrs[i];
-        let n = src.len();
-        let pre = with_arr!(src; x, N => { let _ = N::USIZE; ids_of(x.as_slice(), 931) });
-        ledger::with(|s| s.clones.clear());
-        let r = with_arr!(src; x, N => { let _ = N::USIZE; lib(|| Arr::from(x.clone())) });
-        let clones = ledger::with(|s| s.clones.clone());
-        let srcs: Vec<u32> = infra(|| clones.iter().map(|c| c.0).collect());
-        let news: Vec<u32> = infra(|| clones.iter().map(|c| c.1).collect());
-        match r {
-            Ok(arr) => {
-                if cx.checks.c08 && E::HAS_ID {
-                    if srcs != pre {
-                        fail("C08-clone-calls", format!("clone of {pre:?} cloned elements {srcs:?} (expected each index once, ascending)"));
-                    }
-                    let got = with_arr!(&arr; x, N => { let _ = N::USIZE; ids_of(x.as_slice(), 932) });
-                    if got != news {
-                        fail("C08-clone-result", format!("clone result holds {got:?} but the clones made were {news:?}"));
-                    }
-                } else if cx.checks.c08 && ledger::seam_count(Seam::Clone) as usize != n {
-                    fail("C08-clone-calls", format!("clone of a length-{n} array called Clone {} times", ledger::seam_count(Seam::Clone)));
-                }
-                cx.cov(&[OpKind::CloneArr as u64, n as u64, 0]);
-                self.put_arr(cx, arr);
-            }
-            Err(p) => {
-                if cx.checks.c08 && E::HAS_ID && !is_prefix(&srcs, &pre) {
-                    fail("C08-clone-calls", format!("clone of {pre:?} cloned elements {srcs:?} before the panic (expected a prefix)"));
-                }
-                cx.cov(&[OpKind::CloneArr as u64, n as u64, 1, srcs.len() as u64]);
-                on_panic(cx, "clone", p)
-            }
-        }
-    }
-
-    fn op_native(&mut self, cx: &mut Cx, a: [u32; N_ARGS]) {
-        let Some(i) = pick_len(self.arrs.len(), a[0]) else { return self.noop(cx) };
-        let arr = self.arrs.remove(i);
-        let n = arr.len();
-        let r = with_arr_const!(arr; x, N, C => lib(move || {
-            let native: [E; C] = x.into_array();
-            let back: GenericArray<E, N> = GenericArray::from_array(native);
-            Arr::from(back)
-        }));
-        match r {
-            Ok(arr) => {
-                cx.cov(&[OpKind::NativeRoundtrip as u64, n as u64]);
-                self.put_arr(cx, arr)
-            }
-            Err(p) => on_panic(cx, "into_array/from_array", p),
-        }
-    }
-
-    fn op_tuple(&mut self, cx: &mut Cx, a: [u32; N_ARGS]) {
-        let Some(i) = pick_len(self.arrs.len(), a[0]) else { return self.noop(cx) };
-        if !has_tuple(self.arrs[i].len()) {
-            return self.noop(cx);
-        }
-        let arr = self.arrs.remove(i);
-        let n = arr.len();
-        let r = lib(move || tuple_roundtrip!(arr, E; o => o));
-        match r {
-            Ok(arr) => {
-                cx.cov(&[OpKind::TupleRoundtrip as u64, n as u64]);
-                self.put_arr(cx, arr)
-            }
-            Err(p) => on_panic(cx, "tuple conversion", p),
-        }
-    }
-
-    // ---- by-value iterator -------------------------------------------------
-
-    fn op_into_iter(&mut self, cx: &mut Cx, a: [u32; N_ARGS]) {
-        let Some(i) = pick_len(self.arrs.len(), a[0]) else { return self.noop(cx) };
-        let arr = self.arrs.remove(i);
-        let n = arr.len();
-        let ids = with_arr!(&arr; x, N => { let _ = N::USIZE; ids_of(x.as_slice(), 933) });
-        let r = with_arr!(arr; x, N => { let _ = N::USIZE; lib(move || It::from(x.into_iter())) });
-        match r {
-            Ok(it) => {
-                cx.cov(&[OpKind::IntoIter as u64, n as u64]);
-                let model: VecDeque<u32> = infra(|| ids.into_iter().collect());
-                self.put_it(cx, ItObj { it, model, front: 0 })
-            }
-            Err(p) => on_panic(cx, "into_iter", p),
-        }
-    }
-
-    fn it_cov(&self, cx: &mut Cx, kind: OpKind, i: usize, arg: u64) {
-        let io = &self.its[i];
-        let n = io.it.len() as u64;
-        let front = io.front as u64;
-        let back = front + io.model.len() as u64;
-        cx.cov(&[kind as u64, n, front, back, arg]);
-        if front > 0 && back < n {
-            cx.probe("iterator op on an iterator consumed from both ends");
-        }
-        if io.model.is_empty() {
-            cx.probe("iterator op on an exhausted iterator");
-        }
-    }
-
-    /// after a destructor panic inside an iterator method the queue model is re-synchronised
-    /// from observation (ids read through as_slice; the walk verifies each is live)
-    fn resync_it(&mut self, i: usize) {
-        let io = &mut self.its[i];
-        let ids = with_it!(&io.it; it, N => { let _ = N::USIZE; ids_of(it.as_slice(), 934) });
-        infra(|| {
-            io.model = ids.into_iter().collect();
-        });
-    }
-
-    fn op_it_next(&mut self, cx: &mut Cx, a: [u32; N_ARGS], back: bool) {
-        let Some(i) = pick_len(self.its.len(), a[0]) else { return self.noop(cx) };
-        self.it_cov(cx, if back { OpKind::ItNextBack } else { OpKind::ItNext }, i, 0);
-        let io = &mut self.its[i];
-        let r = with_it!(&mut io.it; it, N => { let _ = N::USIZE; lib(|| if back { it.next_back() } else { it.next() }) });
-        match r {
-            Ok(got) => {
-                let want = if back { io.model.pop_back() } else { io.model.pop_front() };
-                if !back && want.is_some() {
-                    io.front += 1;
-                }
-                let got_id = got.as_ref().map(|e| e.observe(935));
-                if cx.checks.c06 {
-                    let ok = if E::HAS_ID { got_id == want } else { got_id.is_some() == want.is_some() };
-                    if !ok {
-                        fail("C06-return-value", format!("{} returned {got_id:?}, a queue of the same elements returns {want:?}", if back { "next_back" } else { "next" }));
-                    }
-                }
-                if let Some(e) = got {
-                    self.hand_back(cx, e, a[1]);
-                }
-            }
-            Err(p) => on_panic(cx, "next/next_back", p),
-        }
-    }
-
-    fn op_it_nth(&mut self, cx: &mut Cx, a: [u32; N_ARGS], back: bool) {
-        let Some(i) = pick_len(self.its.len(), a[0]) else { return self.noop(cx) };
-        let len = self.its[i].model.len();
-        // argument range 0..=len+2, plus (args >= 100) arguments at the top of the usize range
-        let n = if a[1] >= 100 { usize::MAX - (a[1] as usize - 100) % 4 } else { (a[1] as usize) % (len + 3) };
-        if a[1] >= 100 {
-            cx.probe("nth/nth_back with an argument near usize::MAX");
-        }
-        self.it_cov(cx, if back { OpKind::ItNthBack } else { OpKind::ItNth }, i, if a[1] >= 100 { 99 } else { n as u64 });
-        if n >= len {
-            cx.probe("nth/nth_back with n >= len");
-        }
-        let io = &mut self.its[i];
-        let r = with_it!(&mut io.it; it, N => { let _ = N::USIZE; lib(|| if back { it.nth_back(n) } else { it.nth(n) }) });
-        match r {
-            Ok(got) => {
-                let skip = n.min(len);
-                for _ in 0..skip {
-                    if back {
-                        io.model.pop_back();
-                    } else {
-                        io.model.pop_front();
-                        io.front += 1;
-                    }
-                }
-                let want = if back { io.model.pop_back() } else { io.model.pop_front() };
-                if !back && want.is_some() {
-                    io.front += 1;
-                }
-                let got_id = got.as_ref().map(|e| e.observe(936));
-                if cx.checks.c06 {
-                    let ok = if E::HAS_ID { got_id == want } else { got_id.is_some() == want.is_some() };
-                    if !ok {
-                        fail("C06-return-value", format!("{}({n}) with {len} remaining returned {got_id:?}, a queue returns {want:?}", if back { "nth_back" } else { "nth" }));
-                    }
-                }
-                if let Some(e) = got {
-                    self.hand_back(cx, e, a[2]);
-                }
-            }
-            Err(p) => {
-                on_panic(cx, "nth/nth_back", p);
-                cx.probe("destructor panic inside nth/nth_back");
-                self.resync_it(i);
-            }
-        }
-    }
-
-    fn op_it_len(&mut self, cx: &mut Cx, a: [u32; N_ARGS]) {
-        let Some(i) = pick_len(self.its.len(), a[0]) else { return self.noop(cx) };
-        self.it_cov(cx, OpKind::ItLen, i, 0);
-        let io = &self.its[i];
-        let r = with_it!(&io.it; it, N => { let _ = N::USIZE; lib(|| (ExactSizeIterator::len(it), it.size_hint())) });
-        match r {
-            Ok((len, hint)) => {
-                let want = io.model.len();
-                if cx.checks.c06 && (len != want || hint != (want, Some(want))) {
-                    fail("C06-len", format!("len() = {len}, size_hint() = {hint:?} with {want} elements still to come"));
-                }
-            }
-            Err(p) => on_panic(cx, "len/size_hint", p),
-        }
-    }
-
-    fn op_it_write(&mut self, cx: &mut Cx, a: [u32; N_ARGS]) {
-        let Some(i) = pick_len(self.its.len(), a[0]) else { return self.noop(cx) };
-        self.it_cov(cx, OpKind::ItWrite, i, 0);
-        let io = &mut self.its[i];
-        let idx = a[1] as usize;
-        let fresh = {
-            let _g = enter(Ctx::Work);
-            E::make()
-        };
-        let fresh_id = fresh.observe(937);
-        let mut fresh = Some(fresh);
-        let r = with_it!(&mut io.it; it, N => { let _ = N::USIZE; lib(|| {
-            let s = it.as_mut_slice();
-            if s.is_empty() { None } else { let k = idx % s.len(); Some((k, core::mem::replace(&mut s[k], fresh.take().unwrap()))) }
-        }) });
-        match r {
-            Ok(Some((k, old))) => {
-                let old_id = old.observe(938);
-                if cx.checks.c06 && E::HAS_ID && io.model.get(k).copied() != Some(old_id) {
-                    fail("C06-as-mut-slice", format!("as_mut_slice()[{k}] held {old_id}, the queue model has {:?}", io.model.get(k)));
-                }
-                if k < io.model.len() {
-                    io.model[k] = fresh_id;
-                }
-                self.hand_back(cx, old, 0);
-            }
-            Ok(None) => {
-                if cx.checks.c06 && !io.model.is_empty() {
-                    fail("C06-as-mut-slice", format!("as_mut_slice() is empty with {} elements still to come", io.model.len()));
-                }
-                if let Some(f) = fresh.take() {
-                    self.drop_value(cx, "drop unused element", f);
-                }
-            }
-            Err(p) => {
-                on_panic(cx, "as_mut_slice", p);
-                if let Some(f) = fresh.take() {
-                    self.drop_value(cx, "drop unused element", f);
-                }
-            }
-        }
-    }
-
-    fn op_it_clone(&mut self, cx: &mut Cx, a: [u32; N_ARGS]) {
-        let Some(i) = pick_len(self.its.len(), a[0]) else { return self.noop(cx) };
-        self.it_cov(cx, OpKind::ItClone, i, 0);
-        let io = &self.its[i];
-        ledger::with(|s| s.clones.clear());
-        let r = with_it!(&io.it; it, N => { let _ = N::USIZE; lib(|| It::from(it.clone())) });
-        let clones = ledger::with(|s| s.clones.clone());
-        let srcs: Vec<u32> = infra(|| clones.iter().map(|c| c.0).collect());
-        let news: Vec<u32> = infra(|| clones.iter().map(|c| c.1).collect());
-        let want: Vec<u32> = infra(|| io.model.iter().copied().collect());
-        match r {
-            Ok(it2) => {
-                if cx.checks.c06 {
-                    if E::HAS_ID && srcs != want {
-                        fail("C06-clone", format!("clone of an iterator with remaining {want:?} cloned {srcs:?}"));
-                    }
-                    if !E::HAS_ID && ledger::seam_count(Seam::Clone) as usize != want.len() {
-                        fail("C06-clone", format!("clone of an iterator with {} remaining made {} clones", want.len(), ledger::seam_count(Seam::Clone)));
-                    }
-                }
-                let model: VecDeque<u32> = infra(|| if E::HAS_ID { news.into_iter().collect() } else { want.iter().map(|_| 0).collect() });
-                // the clone's own remaining elements are compared with this model by the walk
-                self.put_it(cx, ItObj { it: it2, model, front: 0 });
-            }
-            Err(p) => on_panic(cx, "iterator clone", p),
-        }
-    }
-
-    fn op_it_fold(&mut self, cx: &mut Cx, a: [u32; N_ARGS], back: bool) {
-        let Some(i) = pick_len(self.its.len(), a[0]) else { return self.noop(cx) };
-        self.it_cov(cx, if back { OpKind::ItRfold } else { OpKind::ItFold }, i, 0);
-        let io = self.its.remove(i);
-        let mut want: Vec<u32> = infra(|| io.model.iter().copied().collect());
-        if back {
-            want.reverse();
-        }
-        let mut cb = Cb::<E>::new(a[1]);
-        let init = Acc { token: 7, kept: infra(Vec::new) };
-        let r = with_it!(io.it; it, N => { let _ = N::USIZE; lib(|| {
-            if back { it.rfold(init, |acc, e| fold_cb(&mut cb, acc, e)) } else { it.fold(init, |acc, e| fold_cb(&mut cb, acc, e)) }
-        }) });
-        let seen: Vec<u32> = infra(|| cb.args.iter().map(|x| x.0).collect());
-        match r {
-            Ok(acc) => {
-                if cx.checks.c06 {
-                    let ok = if E::HAS_ID { seen == want } else { seen.len() == want.len() };
-                    if !ok {
-                        fail("C06-fold-order", format!("{} visited {seen:?}, a queue yields {want:?}", if back { "rfold" } else { "fold" }));
-                    }
-                }
-                if cx.checks.c08 {
-                    let exp = fold_expected(7, &seen);
-                    if cb.args != exp {
-                        fail("C08-fold-acc", format!("iterator fold did not thread the accumulator: calls {:?}, expected {:?}", cb.args, exp));
-                    }
-                }
-                let Acc { kept, .. } = acc;
-                self.put_loose_all(cx, kept);
-            }
-            Err(p) => {
-                if cx.checks.c06 && E::HAS_ID && !is_prefix(&seen, &want) {
-                    fail("C06-fold-order", format!("fold visited {seen:?} before the panic, a queue yields {want:?}"));
-                }
-                on_panic(cx, "iterator fold/rfold", p);
-            }
-        }
-        let stash = core::mem::take(&mut cb.stash);
-        self.put_loose_all(cx, stash);
-    }
-
-    fn op_it_count(&mut self, cx: &mut Cx, a: [u32; N_ARGS]) {
-        let Some(i) = pick_len(self.its.len(), a[0]) else { return self.noop(cx) };
-        self.it_cov(cx, OpKind::ItCount, i, 0);
-        let io = self.its.remove(i);
-        let want = io.model.len();
-        let r = with_it!(io.it; it, N => { let _ = N::USIZE; lib(move || it.count()) });
-        match r {
-            Ok(c) => {
-                if cx.checks.c06 && c != want {
-                    fail("C06-return-value", format!("count() returned {c} with {want} elements still to come"));
-                }
-            }
-            Err(p) => on_panic(cx, "count", p),
-        }
-    }
-
-    fn op_it_last(&mut self, cx: &mut Cx, a: [u32; N_ARGS]) {
-        let Some(i) = pick_len(self.its.len(), a[0]) else { return self.noop(cx) };
-        self.it_cov(cx, OpKind::ItLast, i, 0);
-        let io = self.its.remove(i);
-        let want = io.model.back().copied();
-        let r = with_it!(io.it; it, N => { let _ = N::USIZE; lib(move || it.last()) });
-        match r {
-            Ok(got) => {
-                let got_id = got.as_ref().map(|e| e.observe(939));
-                if cx.checks.c06 {
-                    let ok = if E::HAS_ID { got_id == want } else { got_id.is_some() == want.is_some() };
-                    if !ok {
-                        fail("C06-return-value", format!("last() returned {got_id:?}, a queue returns {want:?}"));
-                    }
-                }
-                if let Some(e) = got {
-                    self.hand_back(cx, e, a[1]);
-                }
-            }
-            Err(p) => on_panic(cx, "last", p),
-        }
-    }
-
-    fn op_it_debug(&mut self, cx: &mut Cx, a: [u32; N_ARGS]) {
-        let Some(i) = pick_len(self.its.len(), a[0]) else { return self.noop(cx) };
-        self.it_cov(cx, OpKind::ItDebug, i, 0);
-        let io = &self.its[i];
-        let r = with_it!(&io.it; it, N => { let _ = N::USIZE; lib(|| { let _g = enter(Ctx::Infra); format!("{:?}", it) }) });
-        match r {
-            Ok(s) => {
-                if cx.checks.c06 {
-                    let list = infra(|| {
-                        let parts: Vec<String> = io.model.iter().map(|id| E::debug_of(*id)).collect();
-                        format!("[{}]", parts.join(", "))
-                    });
-                    let ok = infra(|| s.contains(&list) && s.matches('#').count() == io.model.len());
-                    if !ok {
-                        fail("C06-debug", format!("Debug printed {s:?}, the remaining elements are {list}"));
-                    }
-                }
-            }
-            Err(p) => on_panic(cx, "iterator Debug", p),
-        }
-    }
-
-    fn op_it_collect(&mut self, cx: &mut Cx, a: [u32; N_ARGS]) {
-        let Some(i) = pick_len(self.its.len(), a[0]) else { return self.noop(cx) };
-        self.it_cov(cx, OpKind::ItCollect, i, 0);
-        let io = self.its.remove(i);
-        let rem = io.model.len();
-        // mode 0: collect into the length that fits, if it is in the lane; otherwise a chosen length
-        let li = match LENS.iter().position(|&l| l == rem) {
-            Some(li) if a[1] % 4 != 3 => li,
-            _ => lens_idx(a[2]),
-        };
-        let target = LENS[li];
-        let want: Vec<u32> = infra(|| io.model.iter().copied().collect());
-        let boxed = a[1] % 4 == 2;
-        enum Out<E> {
-            A(Arr<E>),
-            B(Bx<E>),
-        }
-        let r = with_it!(io.it; it, N => { let _ = N::USIZE; with_len!(li; R => lib(move || {
-            if boxed {
-                GenericArray::<E, R>::try_boxed_from_iter(it).map(|b| Out::B(Bx::from(b)))
-            } else {
-                GenericArray::<E, R>::try_from_iter(it).map(|a| Out::A(Arr::from(a)))
-            }
-        })) });
-        match r {
-            Ok(Ok(out)) => {
-                if target != rem {
-                    fail("C07-wrong-length-accepted", format!("collecting {rem} remaining elements into length {target} returned Ok"));
-                }
-                let got = match &out {
-                    Out::A(arr) => with_arr!(arr; x, N => { let _ = N::USIZE; ids_of(x.as_slice(), 940) }),
-                    Out::B(bx) => with_bx!(bx; x, N => { let _ = N::USIZE; ids_of(x.as_slice(), 940) }),
-                };
-                if cx.checks.c06 && E::HAS_ID && got != want {
-                    fail("C06-collect-order", format!("collecting the iterator gave {got:?}, a queue yields {want:?}"));
-                }
-                match out {
-                    Out::A(arr) => self.put_arr(cx, arr),
-                    Out::B(bx) => self.put_bx(cx, bx),
-                }
-            }
-            Ok(Err(_)) => {
-                if target == rem && (cx.checks.c06 || cx.checks.c07) {
-                    fail("C07-right-length-rejected", format!("collecting {rem} remaining elements into length {target} returned LengthError"));
-                }
-                cx.probe("collect of a by-value iterator into the wrong length");
-            }
-            Err(p) => on_panic(cx, "collect from iterator", p),
-        }
-    }
-
-    /// `dst.clone_from(&src)` on two by-value iterators of the same array type
-    fn op_it_clone_from(&mut self, cx: &mut Cx, a: [u32; N_ARGS]) {
-        let Some(i) = pick_len(self.its.len(), a[0]) else { return self.noop(cx) };
-        let n = self.its[i].it.len();
-        let partners: Vec<usize> = infra(|| (0..self.its.len()).filter(|&j| j != i && self.its[j].it.len() == n).collect());
-        let Some(pj) = pick_len(partners.len(), a[1]) else { return self.noop(cx) };
-        let j = partners[pj];
-        self.it_cov(cx, OpKind::ItCloneFrom, i, self.its[j].model.len() as u64);
-        // take the destination out so that both can be borrowed
-        let mut dst = self.its.remove(i);
-        let j = if j > i { j - 1 } else { j };
-        let src = &self.its[j];
-        ledger::with(|s| s.clones.clear());
-        let r = match (&mut dst.it, &src.it) {
-            (d, s0) => {
-                macro_rules! arms {
-                    ($($v:ident),*) => {
-                        match (d, s0) {
-                            $((It::$v(d), It::$v(s0)) => lib(|| d.clone_from(s0)),)*
-                            _ => unreachable!(),
-                        }
-                    };
-                }
-                arms!(L0, L1, L2, L3, L4, L5, L6, L7, L8, L9, L10, L11, L12, L15, L16, L17, L31, L32, L33, L64, L100, L1024)
-            }
-        };
-        let clones = ledger::with(|s| s.clones.clone());
-        let news: Vec<u32> = infra(|| clones.iter().map(|c| c.1).collect());
-        let want: Vec<u32> = infra(|| src.model.iter().copied().collect());
-        match r {
-            Ok(()) => {
-                // the destination now yields clones of the source's remaining elements
-                infra(|| {
-                    dst.model = if E::HAS_ID { news.iter().copied().collect() } else { want.iter().map(|_| 0).collect() };
-                    dst.front = 0;
-                });
-                if cx.checks.c06 && E::HAS_ID && news.len() != want.len() {
-                    fail("C06-clone", format!("clone_from a source with remaining {want:?} made {} clones", news.len()));
-                }
-                self.put_it(cx, dst);
-            }
-            Err(p) => {
-                on_panic(cx, "iterator clone_from", p);
-                // whatever the destination holds now is re-read through as_slice
-                infra(|| self.its.push(dst));
-                let k = self.its.len() - 1;
-                self.resync_it(k);
-            }
-        }
-    }
-
-    /// `dst.clone_from(&src)` on two arrays of the same length
-    fn op_clone_from(&mut self, cx: &mut Cx, a: [u32; N_ARGS]) {
-        let Some(i) = pick_len(self.arrs.len(), a[0]) else { return self.noop(cx) };
-        let n = self.arrs[i].len();
-        let partners: Vec<usize> = infra(|| (0..self.arrs.len()).filter(|&j| j != i && self.arrs[j].len() == n).collect());
-        let Some(pj) = pick_len(partners.len(), a[1]) else { return self.noop(cx) };
-        let j = partners[pj];
-        let mut dst = self.arrs.remove(i);
-        let j = if j > i { j - 1 } else { j };
-        let src = &self.arrs[j];
-        let pre = with_arr!(src; x, N => { let _ = N::USIZE; ids_of(x.as_slice(), 931) });
-        ledger::with(|s| s.clones.clear());
-        let r = with_arr_pair!((&mut dst, src); d, s0, N => { let _ = N::USIZE; lib(|| d.clone_from(s0)) }; _o => unreachable!());
-        let clones = ledger::with(|s| s.clones.clone());
-        let srcs: Vec<u32> = infra(|| clones.iter().map(|c| c.0).collect());
-        let news: Vec<u32> = infra(|| clones.iter().map(|c| c.1).collect());
-        cx.cov(&[OpKind::CloneFromArr as u64, n as u64, r.is_err() as u64]);
-        match r {
-            Ok(()) => {
-                if cx.checks.c08 && E::HAS_ID {
-                    let got = with_arr!(&dst; x, N => { let _ = N::USIZE; ids_of(x.as_slice(), 932) });
-                    if srcs != pre || got != news {
-                        fail("C08-clone-calls", format!("clone_from of {pre:?} cloned {srcs:?}; destination holds {got:?}, clones made {news:?}"));
-                    }
-                }
-            }
-            Err(p) => on_panic(cx, "clone_from", p),
-        }
-        self.put_arr(cx, dst);
-    }
-
-    // ---- functional --------------------------------------------------------
-
-    pub fn check_cb_c08(&self, cx: &mut Cx, what: &str, cb: &Cb<E>, want_args: &[(u32, u32)], result: Option<Vec<u32>>) {
-        if !cx.checks.c08 {
-            return;
-        }
-        if E::HAS_ID {
-            match &result {
-                Some(got) => {
-                    if cb.args != want_args {
-                        fail("C08-call-order", format!("{what}: callback saw {:?}, expected {:?} (index order, once each)", cb.args, want_args));
-                    }
-                    if got != &cb.outs {
-                        fail("C08-result", format!("{what}: result holds {got:?}, call i returned {:?}", cb.outs));
-                    }
-                }
-                None => {
-                    if !(cb.args.len() <= want_args.len() && cb.args[..] == want_args[..cb.args.len()]) {
-                        fail("C08-call-order", format!("{what}: callback saw {:?} before the panic, expected a prefix of {:?}", cb.args, want_args));
-                    }
-                }
-            }
-        } else if result.is_some() && cb.args.len() != want_args.len() {
-            fail("C08-call-order", format!("{what}: callback was called {} times for length {}", cb.args.len(), want_args.len()));
-        }
-    }
-
-    /// map that changes the element type: tracked -> plain (form 4) and plain -> tracked (form 5)
-    fn op_map_mixed(&mut self, cx: &mut Cx, a: [u32; N_ARGS], form: u32) {
-        let Some(i) = pick_len(self.arrs.len(), a[0]) else { return self.noop(cx) };
-        let mut cb = Cb::<E>::new(a[1]);
-        let n = self.arrs[i].len();
-        let li = self.arrs[i].len_idx();
-        if form == 4 {
-            let arr = self.arrs.remove(i);
-            let pre = with_arr!(&arr; x, N => { let _ = N::USIZE; ids_of(x.as_slice(), 941) });
-            let r = with_arr!(arr; x, N => { let _ = N::USIZE; lib(|| Arr::<Plain>::from(x.map(|e: E| {
-                let _g = enter(Ctx::Work);
-                ledger::tick(Seam::Closure);
-                let id = e.observe(910);
-                cb.record(id, 0);
-                // behaviour: drop inside the callback or keep
-                if (cb.beh + cb.calls) % 2 == 0 { drop(e) } else { cb.keep(e) }
-                cb.calls += 1;
-                Plain(id)
-            }))) });
-            cx.cov(&[OpKind::Map as u64, n as u64, 4, r.is_err() as u64, cb.calls as u64 * r.is_err() as u64]);
-            let seen: Vec<u32> = infra(|| cb.args.iter().map(|x| x.0).collect());
-            match r {
-                Ok(out) => {
-                    if cx.checks.c08 && E::HAS_ID {
-                        let got: Vec<u32> = with_arr!(&out; x, N => { let _ = N::USIZE; x.iter().map(|p| p.0).collect() });
-                        if seen != pre || got != pre {
-                            fail("C08-call-order", format!("map to another type: callback saw {seen:?}, result holds {got:?}, expected {pre:?}"));
-                        }
-                    }
-                }
-                Err(p) => {
-                    if cx.checks.c08 && E::HAS_ID && !(seen.len() <= pre.len() && seen[..] == pre[..seen.len()]) {
-                        fail("C08-call-order", format!("map to another type: callback saw {seen:?} before the panic, expected a prefix of {pre:?}"));
-                    }
-                    on_panic(cx, "map (to plain)", p)
-                }
-            }
-        } else {
-            let r = with_len!(li; N => lib(|| {
-                let src = GenericArray::<Plain, N>::generate(|i| Plain(i as u32));
-                Arr::<E>::from(src.map(|p: Plain| {
-                    let _g = enter(Ctx::Work);
-                    ledger::tick(Seam::Closure);
-                    cb.record(PLAIN_TAG | p.0, 0);
-                    cb.calls += 1;
-                    let e = E::make();
-                    cb.out(e)
-                }))
-            }));
-            cx.cov(&[OpKind::Map as u64, n as u64, 5, r.is_err() as u64, cb.calls as u64 * r.is_err() as u64]);
-            let want: Vec<(u32, u32)> = infra(|| (0..n as u32).map(|k| (PLAIN_TAG | k, 0)).collect());
-            match r {
-                Ok(arr) => {
-                    let got = with_arr!(&arr; x, N => { let _ = N::USIZE; ids_of(x.as_slice(), 942) });
-                    self.check_cb_c08(cx, "map (from plain)", &cb, &want, Some(got));
-                    self.put_arr(cx, arr);
-                }
-                Err(p) => {
-                    self.check_cb_c08(cx, "map (from plain)", &cb, &want, None);
-                    on_panic(cx, "map (from plain)", p);
-                }
-            }
-        }
-        let stash = core::mem::take(&mut cb.stash);
-        self.put_loose_all(cx, stash);
-    }
-
-    fn op_map(&mut self, cx: &mut Cx, a: [u32; N_ARGS]) {
-        let form = a[2] % 7;
-        if form == 6 {
-            return self.op_bx_map_bytes(cx, a);
-        }
-        if form >= 4 {
-            return self.op_map_mixed(cx, a, form);
-        }
-        if form == 3 {
-            return self.op_bx_map(cx, a);
-        }
-        let Some(i) = pick_len(self.arrs.len(), a[0]) else { return self.noop(cx) };
-        let mut cb = Cb::<E>::new(a[1]);
-        let n = self.arrs[i].len();
-        let pre = with_arr!(&self.arrs[i]; x, N => { let _ = N::USIZE; ids_of(x.as_slice(), 941) });
-        let want: Vec<(u32, u32)> = infra(|| pre.iter().map(|&id| (id, 0)).collect());
-        let r = match form {
-            0 => {
-                let arr = self.arrs.remove(i);
-                with_arr!(arr; x, N => { let _ = N::USIZE; lib(|| Arr::from(x.map(|e| map_cb(&mut cb, e)))) })
-            }
-            1 => {
-                with_arr!(&self.arrs[i]; x, N => { let _ = N::USIZE; lib(|| Arr::from(FunctionalSequence::map(x, |e: &E| map_cb(&mut cb, e)))) })
-            }
-            _ => {
-                with_arr!(&mut self.arrs[i]; x, N => { let _ = N::USIZE; lib(|| Arr::from(FunctionalSequence::map(x, |e: &mut E| map_cb(&mut cb, e)))) })
-            }
-        };
-        cx.cov(&[OpKind::Map as u64, n as u64, form as u64, r.is_err() as u64, cb.calls as u64 * r.is_err() as u64]);
-        match r {
-            Ok(arr) => {
-                let got = with_arr!(&arr; x, N => { let _ = N::USIZE; ids_of(x.as_slice(), 942) });
-                self.check_cb_c08(cx, "map", &cb, &want, Some(got));
-                self.put_arr(cx, arr);
-            }
-            Err(p) => {
-                self.check_cb_c08(cx, "map", &cb, &want, None);
-                on_panic(cx, "map", p);
-            }
-        }
-        let stash = core::mem::take(&mut cb.stash);
-        self.put_loose_all(cx, stash);
-    }
-
-    fn op_fold(&mut self, cx: &mut Cx, a: [u32; N_ARGS]) {
-        let form = a[2] % 4;
-        if form == 3 {
-            return self.op_bx_fold(cx, a);
-        }
-        let Some(i) = pick_len(self.arrs.len(), a[0]) else { return self.noop(cx) };
-        let mut cb = Cb::<E>::new(a[1]);
-        let n = self.arrs[i].len();
-        let pre = with_arr!(&self.arrs[i]; x, N => { let _ = N::USIZE; ids_of(x.as_slice(), 943) });
-        let want = fold_expected(11, &pre);
-        let init = Acc { token: 11, kept: infra(Vec::new) };
-        let r = match form {
-            0 => {
-                let arr = self.arrs.remove(i);
-                with_arr!(arr; x, N => { let _ = N::USIZE; lib(|| x.fold(init, |acc, e| fold_cb(&mut cb, acc, e))) })
-            }
-            1 => {
-                with_arr!(&self.arrs[i]; x, N => { let _ = N::USIZE; lib(|| FunctionalSequence::fold(x, init, |acc, e: &E| fold_cb(&mut cb, acc, e))) })
-            }
-            _ => {
-                with_arr!(&mut self.arrs[i]; x, N => { let _ = N::USIZE; lib(|| FunctionalSequence::fold(x, init, |acc, e: &mut E| fold_cb(&mut cb, acc, e))) })
-            }
-        };
-        cx.cov(&[OpKind::Fold as u64, n as u64, form as u64, r.is_err() as u64, cb.calls as u64 * r.is_err() as u64]);
-        match r {
-            Ok(acc) => {
-                if cx.checks.c08 {
-                    if E::HAS_ID {
-                        if cb.args != want {
-                            fail("C08-call-order", format!("fold: callback saw (element, accumulator) {:?}, expected {:?}", cb.args, want));
-                        }
-                        let last = cb.outs.last().copied().unwrap_or(11);
-                        if acc.token as u32 != last {
-                            fail("C08-result", format!("fold returned an accumulator that is not the one returned by the last call"));
-                        }
-                    } else if cb.args.len() != n {
-                        fail("C08-call-order", format!("fold: callback was called {} times for length {n}", cb.args.len()));
-                    }
-                }
-                let Acc { kept, .. } = acc;
-                self.put_loose_all(cx, kept);
-            }
-            Err(p) => {
-                if cx.checks.c08 && E::HAS_ID && !(cb.args.len() <= want.len() && cb.args[..] == want[..cb.args.len()]) {
-                    fail("C08-call-order", format!("fold: callback saw {:?} before the panic, expected a prefix of {:?}", cb.args, want));
-                }
-                on_panic(cx, "fold", p);
-            }
-        }
-        let stash = core::mem::take(&mut cb.stash);
-        self.put_loose_all(cx, stash);
-    }
-
-    /// make sure two distinct arrays of the same length exist; returns them removed from the pool
-    fn take_pair(&mut self, cx: &mut Cx, a: u32, b: u32) -> Option<(Arr<E>, Arr<E>)> {
-        let i = pick_len(self.arrs.len(), a)?;
-        let n = self.arrs[i].len();
-        let partners: Vec<usize> = infra(|| (0..self.arrs.len()).filter(|&j| j != i && self.arrs[j].len() == n).collect());
-        if let Some(pj) = pick_len(partners.len(), b) {
-            let j = partners[pj];
-            let (hi, lo) = if i > j { (i, j) } else { (j, i) };
-            let x_hi = self.arrs.remove(hi);
-            let x_lo = self.arrs.remove(lo);
-            if i > j {
-                Some((x_hi, x_lo))
-            } else {
-                Some((x_lo, x_hi))
-            }
-        } else {
-            // no partner of that length: the caller makes one (no seam is involved)
-            let li = self.arrs[i].len_idx();
-            let made = with_len!(li; N => lib(|| { Arr::from(GenericArray::<E, N>::generate(|_| { let _g = enter(Ctx::Work); E::make() })) }));
-            match made {
-                Ok(p) => {
-                    let x = self.arrs.remove(i);
-                    Some((x, p))
-                }
-                Err(p) => {
-                    on_panic(cx, "generate (partner)", p);
-                    None
-                }
-            }
-        }
-    }
-
-    /// zip of a tracked array with an array of plain (no-Drop) elements of another type, on either
-    /// side, in all nine receiver x argument forms
-    fn op_zip_mixed(&mut self, cx: &mut Cx, a: [u32; N_ARGS]) {
-        let form = a[3] % 9;
-        let plain_left = a[4] % 3 == 1;
-        let Some(i) = pick_len(self.arrs.len(), a[0]) else { return self.noop(cx) };
-        let mut xe = self.arrs.remove(i);
-        let n = xe.len();
-        let li = xe.len_idx();
-        let made = with_len!(li; N => lib(|| Arr::<Plain>::from(GenericArray::<Plain, N>::generate(|i| Plain(i as u32)))));
-        let mut xp = match made {
-            Ok(p) => p,
-            Err(p) => {
-                self.put_arr(cx, xe);
-                return on_panic(cx, "generate (plain partner)", p);
-            }
-        };
-        let (lf, rf) = (form / 3, form % 3);
-        let mut cb = Cb::<E>::new(a[2]);
-        let ie = with_arr!(&xe; x, N => { let _ = N::USIZE; ids_of(x.as_slice(), 944) });
-        let want: Vec<(u32, u32)> = infra(|| ie.iter().enumerate().map(|(k, &id)| if plain_left { (PLAIN_TAG | k as u32, id) } else { (id, PLAIN_TAG | k as u32) }).collect());
-        let (ef, pf) = if plain_left { (rf, lf) } else { (lf, rf) };
-        let r = {
-            macro_rules! go {
-                ($l:expr, $r:expr) => {
-                    lib(|| Arr::<E>::from(FunctionalSequence::zip($l, $r, |l, r| zip_cb(&mut cb, l, r))))
-                };
-            }
-            macro_rules! pair {
-                ($e:expr, $p:expr) => {
-                    if plain_left {
-                        with_arr_pair!(($p, $e); l, r, N => { let _ = N::USIZE; go!(l, r) }; _o => unreachable!())
-                    } else {
-                        with_arr_pair!(($e, $p); l, r, N => { let _ = N::USIZE; go!(l, r) }; _o => unreachable!())
-                    }
-                };
-            }
-            match (ef, pf) {
-                (0, 0) => { let (e, p) = (core::mem::replace(&mut xe, Arr::from(GenericArray::<E, generic_array::typenum::U0>::generate(|_| unreachable!()))), core::mem::replace(&mut xp, Arr::from(GenericArray::<Plain, generic_array::typenum::U0>::generate(|_| unreachable!())))); pair!(e, p) }
-                (0, 1) => { let e = core::mem::replace(&mut xe, Arr::from(GenericArray::<E, generic_array::typenum::U0>::generate(|_| unreachable!()))); pair!(e, &xp) }
-                (0, _) => { let e = core::mem::replace(&mut xe, Arr::from(GenericArray::<E, generic_array::typenum::U0>::generate(|_| unreachable!()))); pair!(e, &mut xp) }
-                (1, 0) => { let p = core::mem::replace(&mut xp, Arr::from(GenericArray::<Plain, generic_array::typenum::U0>::generate(|_| unreachable!()))); pair!(&xe, p) }
-                (1, 1) => pair!(&xe, &xp),
-                (1, _) => pair!(&xe, &mut xp),
-                (_, 0) => { let p = core::mem::replace(&mut xp, Arr::from(GenericArray::<Plain, generic_array::typenum::U0>::generate(|_| unreachable!()))); pair!(&mut xe, p) }
-                (_, 1) => pair!(&mut xe, &xp),
-                (_, _) => pair!(&mut xe, &mut xp),
-            }
-        };
-        cx.cov(&[OpKind::Zip as u64, n as u64, form as u64, r.is_err() as u64, cb.calls as u64 * r.is_err() as u64, 1 + plain_left as u64]);
-        cx.probe("zip of a droppable array with a plain array of another type");
-        match r {
-            Ok(arr) => {
-                let got = with_arr!(&arr; x, N => { let _ = N::USIZE; ids_of(x.as_slice(), 946) });
-                self.check_cb_c08(cx, "zip (mixed element types)", &cb, &want, Some(got));
-                self.put_arr(cx, arr);
-            }
-            Err(p) => {
-                self.check_cb_c08(cx, "zip (mixed element types)", &cb, &want, None);
-                on_panic(cx, "zip (mixed element types)", p);
-            }
-        }
-        // the tracked operand survives in the by-reference forms (an owned one was replaced by U0)
-        if ef != 0 {
-            self.put_arr(cx, xe);
-        }
-        let stash = core::mem::take(&mut cb.stash);
-        self.put_loose_all(cx, stash);
-    }
-
-    fn op_zip(&mut self, cx: &mut Cx, a: [u32; N_ARGS]) {
-        let form = a[3] % 10;
-        if form == 9 {
-            return self.op_bx_zip(cx, a);
-        }
-        if a[4] % 3 != 0 {
-            return self.op_zip_mixed(cx, a);
-        }
-        let Some((mut xa, mut xb)) = self.take_pair(cx, a[0], a[1]) else { return self.noop(cx) };
-        let n = xa.len();
-        let (lf, rf) = (form / 3, form % 3);
-        let mut cb = Cb::<E>::new(a[2]);
-        let ia = with_arr!(&xa; x, N => { let _ = N::USIZE; ids_of(x.as_slice(), 944) });
-        let ib = with_arr!(&xb; x, N => { let _ = N::USIZE; ids_of(x.as_slice(), 945) });
-        let want: Vec<(u32, u32)> = infra(|| ia.iter().copied().zip(ib.iter().copied()).collect());
-        // by-reference operands survive the call and go back to the pool
-        let mut keep_a: Option<Arr<E>> = None;
-        let mut keep_b: Option<Arr<E>> = None;
-        let r = {
-            macro_rules! go {
-                ($l:expr, $r:expr) => {
-                    lib(|| Arr::from(FunctionalSequence::zip($l, $r, |l, r| zip_cb(&mut cb, l, r))))
-                };
-            }
-            match (lf, rf) {
-                (0, 0) => with_arr_pair!((xa, xb); l, r, N => { let _ = N::USIZE; go!(l, r) }; _o => unreachable!()),
-                (0, 1) => { let res = with_arr_pair!((xa, &xb); l, r, N => { let _ = N::USIZE; go!(l, r) }; _o => unreachable!()); keep_b = Some(xb); res }
-                (0, _) => { let res = with_arr_pair!((xa, &mut xb); l, r, N => { let _ = N::USIZE; go!(l, r) }; _o => unreachable!()); keep_b = Some(xb); res }
-                (1, 0) => { let res = with_arr_pair!((&xa, xb); l, r, N => { let _ = N::USIZE; go!(l, r) }; _o => unreachable!()); keep_a = Some(xa); res }
-                (1, 1) => { let res = with_arr_pair!((&xa, &xb); l, r, N => { let _ = N::USIZE; go!(l, r) }; _o => unreachable!()); keep_a = Some(xa); keep_b = Some(xb); res }
-                (1, _) => { let res = with_arr_pair!((&xa, &mut xb); l, r, N => { let _ = N::USIZE; go!(l, r) }; _o => unreachable!()); keep_a = Some(xa); keep_b = Some(xb); res }
-                (_, 0) => { let res = with_arr_pair!((&mut xa, xb); l, r, N => { let _ = N::USIZE; go!(l, r) }; _o => unreachable!()); keep_a = Some(xa); res }
-                (_, 1) => { let res = with_arr_pair!((&mut xa, &xb); l, r, N => { let _ = N::USIZE; go!(l, r) }; _o => unreachable!()); keep_a = Some(xa); keep_b = Some(xb); res }
-                (_, _) => { let res = with_arr_pair!((&mut xa, &mut xb); l, r, N => { let _ = N::USIZE; go!(l, r) }; _o => unreachable!()); keep_a = Some(xa); keep_b = Some(xb); res }
-            }
-        };
-        cx.cov(&[OpKind::Zip as u64, n as u64, form as u64, r.is_err() as u64, cb.calls as u64 * r.is_err() as u64]);
-        match r {
-            Ok(arr) => {
-                let got = with_arr!(&arr; x, N => { let _ = N::USIZE; ids_of(x.as_slice(), 946) });
-                self.check_cb_c08(cx, "zip", &cb, &want, Some(got));
-                self.put_arr(cx, arr);
-            }
-            Err(p) => {
-                self.check_cb_c08(cx, "zip", &cb, &want, None);
-                on_panic(cx, "zip", p);
-            }
-        }
-        if let Some(x) = keep_a {
-            self.put_arr(cx, x);
-        }
-        if let Some(x) = keep_b {
-            self.put_arr(cx, x);
-        }
-        let stash = core::mem::take(&mut cb.stash);
-        self.put_loose_all(cx, stash);
-    }
-
-    // ---- sequence ------------------------------------------------------------
-
-    fn op_append(&mut self, cx: &mut Cx, a: [u32; N_ARGS]) {
-        let Some(i) = pick_len(self.arrs.len(), a[0]) else { return self.noop(cx) };
-        if !can_lengthen(self.arrs[i].len()) {
-            return self.noop(cx);
-        }
-        let arr = self.arrs.remove(i);
-        let n = arr.len();
-        let front = a[1] % 2 == 1;
-        let e = {
-            let _g = enter(Ctx::Work);
-            E::make()
-        };
-        let r = with_arr_longer!(arr; x, N => { let _ = N::USIZE; lib(move || if front { Arr::from(x.prepend(e)) } else { Arr::from(x.append(e)) }) }; _o => unreachable!());
-        match r {
-            Ok(arr) => {
-                cx.cov(&[OpKind::Append as u64, n as u64, front as u64]);
-                self.put_arr(cx, arr)
-            }
-            Err(p) => on_panic(cx, "append/prepend", p),
-        }
-    }
-
-    fn op_pop(&mut self, cx: &mut Cx, a: [u32; N_ARGS]) {
-        let Some(i) = pick_len(self.arrs.len(), a[0]) else { return self.noop(cx) };
-        if !can_shorten(self.arrs[i].len()) {
-            return self.noop(cx);
-        }
-        let arr = self.arrs.remove(i);
-        let n = arr.len();
-        let front = a[1] % 2 == 1;
-        let r = with_arr_shorter!(arr; x, N => { let _ = N::USIZE; lib(move || if front { let (h, t) = x.pop_front(); (Arr::from(t), h) } else { let (t, l) = x.pop_back(); (Arr::from(t), l) }) }; _o => unreachable!());
-        match r {
-            Ok((arr, e)) => {
-                cx.cov(&[OpKind::Pop as u64, n as u64, front as u64]);
-                self.put_arr(cx, arr);
-                self.hand_back(cx, e, a[2]);
-            }
-            Err(p) => on_panic(cx, "pop", p),
-        }
-    }
-
-    fn op_split(&mut self, cx: &mut Cx, a: [u32; N_ARGS]) {
-        let Some(i) = pick_len(self.arrs.len(), a[0]) else { return self.noop(cx) };
-        let n = self.arrs[i].len();
-        let ks: Vec<usize> = infra(|| SPLITS.iter().filter(|s| s.0 == n).map(|s| s.1).collect());
-        let Some(ki) = pick_len(ks.len(), a[1]) else { return self.noop(cx) };
-        let k = ks[ki];
-        let arr = self.arrs.remove(i);
-        let r = with_split!((arr, k); x, N, K => { let _ = N::USIZE; lib(move || { let (h, t) = Split::<E, K>::split(x); (Arr::from(h), Arr::from(t)) }) }; _o => unreachable!());
-        match r {
-            Ok((h, t)) => {
-                cx.cov(&[OpKind::Split as u64, n as u64, k as u64]);
-                self.put_arr(cx, h);
-                self.put_arr(cx, t);
-            }
-            Err(p) => on_panic(cx, "split", p),
-        }
-    }
-
-    fn op_concat(&mut self, cx: &mut Cx, a: [u32; N_ARGS]) {
-        if self.arrs.len() < 2 {
-            return self.noop(cx);
-        }
-        let i = a[0] as usize % self.arrs.len();
-        let mut j = a[1] as usize % (self.arrs.len() - 1);
-        if j >= i {
-            j += 1;
-        }
-        let (n, m) = (self.arrs[i].len(), self.arrs[j].len());
-        if !can_concat(n, m) {
-            return self.noop(cx);
-        }
-        let (hi, lo) = if i > j { (i, j) } else { (j, i) };
-        let x_hi = self.arrs.remove(hi);
-        let x_lo = self.arrs.remove(lo);
-        let (xa, xb) = if i > j { (x_hi, x_lo) } else { (x_lo, x_hi) };
-        let r = with_concat!((xa, xb); l, r, N, M => { let _ = (N::USIZE, M::USIZE); lib(move || Arr::from(Concat::concat(l, r))) }; _o => unreachable!());
-        match r {
-            Ok(arr) => {
-                cx.cov(&[OpKind::Concat as u64, n as u64, m as u64]);
-                self.put_arr(cx, arr)
-            }
-            Err(p) => on_panic(cx, "concat", p),
-        }
-    }
-
-    fn op_remove(&mut self, cx: &mut Cx, a: [u32; N_ARGS]) {
-        let Some(i) = pick_len(self.arrs.len(), a[0]) else { return self.noop(cx) };
-        let n = self.arrs[i].len();
-        if !can_shorten(n) {
-            return self.noop(cx);
-        }
-        let arr = self.arrs.remove(i);
-        let idx = a[1] as usize % n;
-        let swap = a[2] % 2 == 1;
-        let r = with_arr_shorter!(arr; x, N => { let _ = N::USIZE; lib(move || { let (e, rest) = if swap { x.swap_remove(idx) } else { x.remove(idx) }; (Arr::from(rest), e) }) }; _o => unreachable!());
-        match r {
-            Ok((arr, e)) => {
-                cx.cov(&[OpKind::Remove as u64, n as u64, idx as u64, swap as u64]);
-                self.put_arr(cx, arr);
-                self.hand_back(cx, e, a[3]);
-            }
-            Err(p) => on_panic(cx, "remove/swap_remove", p),
-        }
-    }
-
-    fn op_flatten(&mut self, cx: &mut Cx, a: [u32; N_ARGS]) {
-        let Some(i) = pick_len(self.nests.len(), a[0]) else { return self.noop(cx) };
-        let nest = self.nests.remove(i);
-        let (n, m) = nest.dims();
-        let r = with_nest!(nest; x, N, M => { let _ = (N::USIZE, M::USIZE); lib(move || Arr::from(Flatten::flatten(x))) });
-        match r {
-            Ok(arr) => {
-                cx.cov(&[OpKind::Flatten as u64, n as u64, m as u64]);
-                self.put_arr(cx, arr)
-            }
-            Err(p) => on_panic(cx, "flatten", p),
-        }
-    }
-
-    fn op_unflatten(&mut self, cx: &mut Cx, a: [u32; N_ARGS]) {
-        let Some(i) = pick_len(self.arrs.len(), a[0]) else { return self.noop(cx) };
-        let nm = self.arrs[i].len();
-        let ns: Vec<usize> = infra(|| UNFLATTENS.iter().filter(|s| s.0 == nm).map(|s| s.1).collect());
-        let Some(ni) = pick_len(ns.len(), a[1]) else { return self.noop(cx) };
-        let n = ns[ni];
-        let arr = self.arrs.remove(i);
-        let r = with_unflatten!((arr, n); x, NM, N => { let _ = (NM::USIZE, N::USIZE); lib(move || Nest::from(Unflatten::<E, NM, N>::unflatten(x))) }; _o => unreachable!());
-        match r {
-            Ok(nest) => {
-                cx.cov(&[OpKind::Unflatten as u64, nm as u64, n as u64]);
-                self.put_nest(cx, nest)
-            }
-            Err(p) => on_panic(cx, "unflatten", p),
-        }
-    }
-
-    fn op_nest_gen(&mut self, cx: &mut Cx, a: [u32; N_ARGS]) {
-        let ni = a[0] as usize % NESTS.len();
-        let r = with_nest_dims!(ni; N, M => lib(|| {
-            Nest::from(GenericArray::<GenericArray<E, N>, M>::generate(|_| GenericArray::<E, N>::generate(|_| {
-                let _g = enter(Ctx::Work);
-                ledger::tick(Seam::Closure);
-                E::make()
-            })))
-        }));
-        match r {
-            Ok(nest) => {
-                cx.cov(&[OpKind::NestGen as u64, ni as u64]);
-                self.put_nest(cx, nest)
-            }
-            Err(p) => on_panic(cx, "nested generate", p),
-        }
-    }
-
-    /// clone of an array whose elements are arrays (Clone seam fires once per innermost element)
-    fn op_nest_clone(&mut self, cx: &mut Cx, a: [u32; N_ARGS]) {
-        let Some(i) = pick_len(self.nests.len(), a[0]) else { return self.noop(cx) };
-        let (n, m) = self.nests[i].dims();
-        let r = with_nest!(&self.nests[i]; x, N, M => { let _ = (N::USIZE, M::USIZE); lib(|| Nest::from(x.clone())) });
-        cx.cov(&[OpKind::NestClone as u64, n as u64, m as u64, r.is_err() as u64]);
-        match r {
-            Ok(c) => {
-                if cx.checks.c08 && ledger::seam_count(Seam::Clone) as usize != n * m {
-                    fail("C08-clone-calls", format!("clone of a {m}-array of {n}-arrays called Clone {} times", ledger::seam_count(Seam::Clone)));
-                }
-                self.put_nest(cx, c)
-            }
-            Err(p) => on_panic(cx, "nested clone", p),
-        }
-    }
-
-    /// by-value iteration over an array of arrays: some inner arrays are handed to the caller,
-    /// the rest are dropped with the iterator
-    fn op_nest_into_iter(&mut self, cx: &mut Cx, a: [u32; N_ARGS]) {
-        let Some(i) = pick_len(self.nests.len(), a[0]) else { return self.noop(cx) };
-        let nest = self.nests.remove(i);
-        let (n, m) = nest.dims();
-        let take = a[1] as usize % (m + 2);
-        let back = a[2] % 2 == 1;
-        let mut got: Vec<Arr<E>> = infra(Vec::new);
-        let r = with_nest!(nest; x, N, M => { let _ = (N::USIZE, M::USIZE); lib(|| {
-            let mut it = x.into_iter();
-            for k in 0..take {
-                let inner = if back && k % 2 == 0 { it.next_back() } else { it.next() };
-                match inner {
-                    Some(arr) => { let v = Arr::from(arr); infra(|| got.push(v)); }
-                    None => break,
-                }
-            }
-            drop(it);
-        }) });
-        cx.cov(&[OpKind::NestIntoIter as u64, n as u64, m as u64, take.min(m + 1) as u64, back as u64, r.is_err() as u64]);
-        if let Err(p) = r {
-            on_panic(cx, "into_iter over an array of arrays", p);
-        }
-        for v in got {
-            self.put_arr(cx, v);
-        }
-    }
-
-    // ---- internals feature -----------------------------------------------------
-
-    fn op_builder(&mut self, cx: &mut Cx, a: [u32; N_ARGS]) {
-        let li = lens_idx(a[0]);
-        let n = LENS[li];
-        let p = a[1] as usize % (n + 1);
-        let kind = a[2] % 4;
-        if p == 0 {
-            cx.probe("builder dropped at position 0");
-        }
-        if p == n {
-            cx.probe("builder filled completely");
-        }
-        let r = with_len!(li; N => lib(|| unsafe {
-            let mk = || { let _g = enter(Ctx::Work); ledger::tick(Seam::Closure); E::make() };
-            match kind {
-                0 => {
-                    let mut b = ArrayBuilder::<E, N>::new();
-                    {
-                        let (it, pos) = b.iter_position();
-                        for dst in it.take(p) {
-                            dst.write(mk());
-                            *pos += 1;
-                        }
-                    }
-                    if p == N::USIZE { Some(Arr::from(b.assume_init())) } else { drop(b); None }
-                }
-                1 => {
-                    let mut storage = GenericArray::<E, N>::uninit();
-                    let mut b = IntrusiveArrayBuilder::new(&mut storage);
-                    {
-                        let (it, pos) = b.iter_position();
-                        for dst in it.take(p) {
-                            dst.write(mk());
-                            *pos += 1;
-                        }
-                    }
-                    if p == N::USIZE { b.finish(); Some(Arr::from(IntrusiveArrayBuilder::array_assume_init(storage))) } else { drop(b); None }
-                }
-                2 => {
-                    // `extend` from a source that yields p items
-                    let mut b = ArrayBuilder::<E, N>::new();
-                    b.extend((0..p).map(|_| mk()));
-                    if b.is_full() != (p == N::USIZE) {
-                        fail("unexpected-panic", format!("ArrayBuilder::<{}>::extend with {p} items reports is_full() = {}", N::USIZE, b.is_full()));
-                    }
-                    if p == N::USIZE { Some(Arr::from(b.assume_init())) } else { drop(b); None }
-                }
-                _ => {
-                    let mut storage = GenericArray::<E, N>::uninit();
-                    let mut b = IntrusiveArrayBuilder::new(&mut storage);
-                    b.extend((0..p).map(|_| mk()));
-                    if b.is_full() != (p == N::USIZE) {
-                        fail("unexpected-panic", format!("IntrusiveArrayBuilder::<{}>::extend with {p} items reports is_full() = {}", N::USIZE, b.is_full()));
-                    }
-                    if p == N::USIZE { b.finish(); Some(Arr::from(IntrusiveArrayBuilder::array_assume_init(storage))) } else { drop(b); None }
-                }
-            }
-        }));
-        cx.cov(&[OpKind::BuilderRun as u64, n as u64, p as u64, kind as u64, r.is_err() as u64]);
-        match r {
-            Ok(Some(arr)) => self.put_arr(cx, arr),
-            Ok(None) => {}
-            Err(pn) => on_panic(cx, "array builder", pn),
-        }
-    }
-
-    fn op_consumer(&mut self, cx: &mut Cx, a: [u32; N_ARGS]) {
-        let Some(i) = pick_len(self.arrs.len(), a[0]) else { return self.noop(cx) };
-        let arr = self.arrs.remove(i);
-        let n = arr.len();
-        let p = a[1] as usize % (n + 1);
-        let mut out: Vec<E> = infra(Vec::new);
-        let r = with_arr!(arr; x, N => { let _ = N::USIZE; lib(|| unsafe {
-            let mut c = ArrayConsumer::new(x);
-            {
-                let (it, pos) = c.iter_position();
-                for src in it.take(p) {
-                    let v = core::ptr::read(src);
-                    *pos += 1;
-                    let _g = enter(Ctx::Work);
-                    ledger::tick(Seam::Closure);
-                    v.observe(947);
-                    infra(|| out.push(v));
-                }
-            }
-            drop(c);
-        }) });
-        cx.cov(&[OpKind::ConsumerRun as u64, n as u64, p as u64, r.is_err() as u64]);
-        if let Err(pn) = r {
-            on_panic(cx, "array consumer", pn);
-        }
-        self.put_loose_all(cx, out);
-    }
-
-    // ---- caller side -------------------------------------------------------------
-
-    fn op_drop(&mut self, cx: &mut Cx, a: [u32; N_ARGS]) {
-        let kind = a[0] % 6;
-        match kind {
-            0 => {
-                let Some(i) = pick_len(self.arrs.len(), a[1]) else { return self.noop(cx) };
-                let x = self.arrs.remove(i);
-                cx.cov(&[OpKind::DropObj as u64, 0, x.len() as u64]);
-                self.drop_value(cx, "drop array", x);
-            }
-            1 => {
-                let Some(i) = pick_len(self.its.len(), a[1]) else { return self.noop(cx) };
-                self.it_cov(cx, OpKind::DropObj, i, 0);
-                let x = self.its.remove(i);
-                self.drop_value(cx, "drop iterator", x.it);
-            }
-            2 => {
-                let Some(i) = pick_len(self.bxs.len(), a[1]) else { return self.noop(cx) };
-                let x = self.bxs.remove(i);
-                cx.cov(&[OpKind::DropObj as u64, 2, x.len() as u64]);
-                self.drop_value(cx, "drop box", x);
-            }
-            3 => {
-                let Some(i) = pick_len(self.vecs.len(), a[1]) else { return self.noop(cx) };
-                let x = self.vecs.remove(i);
-                self.drop_value(cx, "drop vec", x);
-            }
-            4 => {
-                let Some(i) = pick_len(self.nests.len(), a[1]) else { return self.noop(cx) };
-                let x = self.nests.remove(i);
-                self.drop_value(cx, "drop nested", x);
-            }
-            _ => {
-                let Some(i) = pick_len(self.vits.len(), a[1]) else { return self.noop(cx) };
-                let x = self.vits.remove(i);
-                self.drop_value(cx, "drop vec iter", x);
-            }
-        }
-    }
-
-    fn op_release(&mut self, cx: &mut Cx, a: [u32; N_ARGS]) {
-        let Some(i) = pick_len(self.loose.len(), a[0]) else { return self.noop(cx) };
-        let e = self.loose.remove(i);
-        e.observe(948);
-        self.drop_value(cx, "release loose", e);
-    }
 }
 
 #[inline]
@@ -1383,5 +30,68 @@ pub fn pick_len(len: usize, a: u32) -> Option<usize> {
         Some(len - 1 - ((a - 1000) as usize % len))
     } else {
         Some(a as usize % len)
+    }
+}
+
+impl<E: Elem> World<E> {
+    /// Apply one operation. Never panics on its own; library panics are caught inside.
+    pub fn apply(&mut self, cx: &mut Cx, op: &Op) {
+        cx.op_panicked = false;
+        let a = op.args;
+        match op.kind {
+            OpKind::Generate => GNew(self).op_generate(cx, a),
+            OpKind::DefaultArr => GNew(self).op_default(cx, a),
+            OpKind::CloneArr => GNew(self).op_clone(cx, a),
+            OpKind::CloneFromArr => GNew(self).op_clone_from(cx, a),
+            OpKind::NativeRoundtrip => GNew(self).op_native(cx, a),
+            OpKind::TupleRoundtrip => GNew(self).op_tuple(cx, a),
+            OpKind::Collect => GCollect(self).op_collect(cx, a),
+            OpKind::IntoIter => GIter1(self).op_into_iter(cx, a),
+            OpKind::ItNext | OpKind::ItNextBack => GIter1(self).op_it_next(cx, a, op.kind == OpKind::ItNextBack),
+            OpKind::ItNth | OpKind::ItNthBack => GIter1(self).op_it_nth(cx, a, op.kind == OpKind::ItNthBack),
+            OpKind::ItLen => GIter1(self).op_it_len(cx, a),
+            OpKind::ItWrite => GIter1(self).op_it_write(cx, a),
+            OpKind::ItClone => GIter2(self).op_it_clone(cx, a),
+            OpKind::ItCloneFrom => GIter2(self).op_it_clone_from(cx, a),
+            OpKind::ItFold | OpKind::ItRfold => GIter2(self).op_it_fold(cx, a, op.kind == OpKind::ItRfold),
+            OpKind::ItCount => GIter2(self).op_it_count(cx, a),
+            OpKind::ItLast => GIter2(self).op_it_last(cx, a),
+            OpKind::ItDebug => GIter2(self).op_it_debug(cx, a),
+            OpKind::ItCollect => GIter2(self).op_it_collect(cx, a),
+            OpKind::Map => GMap(self).op_map(cx, a),
+            OpKind::Fold => GMap(self).op_fold(cx, a),
+            OpKind::Zip => GZip(self).op_zip(cx, a),
+            OpKind::Append => GSeq(self).op_append(cx, a),
+            OpKind::Pop => GSeq(self).op_pop(cx, a),
+            OpKind::Split => GSeq(self).op_split(cx, a),
+            OpKind::Concat => GSeq(self).op_concat(cx, a),
+            OpKind::Remove => GSeq(self).op_remove(cx, a),
+            OpKind::Flatten => GSeq(self).op_flatten(cx, a),
+            OpKind::Unflatten => GSeq(self).op_unflatten(cx, a),
+            OpKind::NestGen => GSeq(self).op_nest_gen(cx, a),
+            OpKind::NestClone => GSeq(self).op_nest_clone(cx, a),
+            OpKind::NestIntoIter => GSeq(self).op_nest_into_iter(cx, a),
+            OpKind::BuilderRun => GMisc(self).op_builder(cx, a),
+            OpKind::ConsumerRun => GMisc(self).op_consumer(cx, a),
+            OpKind::DropObj => GMisc(self).op_drop(cx, a),
+            OpKind::ReleaseLoose => GMisc(self).op_release(cx, a),
+            OpKind::ArrToVec => GConv(self).op_arr_to_vec(cx, a),
+            OpKind::ArrBox => GConv(self).op_arr_box(cx, a),
+            OpKind::Unbox => GConv(self).op_unbox(cx, a),
+            OpKind::VecMake => GConv(self).op_vec_make(cx, a),
+            OpKind::VecToArr => GConv(self).op_vec_to_arr(cx, a),
+            OpKind::VecToBx => GConv(self).op_vec_to_bx(cx, a),
+            OpKind::BxToVec => GConv(self).op_bx_to_vec(cx, a),
+            OpKind::BoxedGenerate => GConv(self).op_boxed_generate(cx, a),
+            OpKind::DefaultBoxed => GConv(self).op_default_boxed(cx, a),
+            OpKind::BxClone => GConv(self).op_bx_clone(cx, a),
+            OpKind::BxIntoIter => GConv(self).op_bx_into_iter(cx, a),
+            OpKind::VitNext => GConv(self).op_vit_next(cx, a),
+            OpKind::BoxArrMacro => GConv(self).op_box_arr_macro(cx, a),
+            OpKind::SerRecord => GSerde(self).op_ser_record(cx, a),
+            OpKind::SerReal => GSerde(self).op_ser_real(cx, a),
+            OpKind::DeScripted => GSerde(self).op_de_scripted(cx, a),
+            OpKind::DeReal => GSerde(self).op_de_real(cx, a),
+        }
     }
 }
